@@ -751,6 +751,79 @@ def wildcards_follow_the_registry_in_force(col):
         col.violation('C14/wildcard-ignores-the-registry-in-force', "after glom.register(_Walked, iterate=..): 'w.*' gave %r, expected ['p', 'q']" % (got,), None)
 
 
+class _Tree:
+    __slots__ = ('name', 'kids')
+
+    def __init__(self, name, *kids):
+        self.name, self.kids = name, list(kids)
+
+    def __repr__(self):
+        return '<%s>' % self.name
+
+
+class _Rec:
+    def __init__(self, **fields):
+        self.fields = fields
+        self.noise = 'an attribute that is not a field'
+
+
+def registered_walks_at_every_depth(col):
+    """a type whose walking is registered on a Glommer only is walked that way wherever '**' meets it - at the start value, one level
+    down, three levels down, mixed with plain containers - and chained '*' agree with it"""
+    from glom import Glommer
+    g = Glommer()
+    g.register(_Tree, iterate=lambda t: iter(t.kids))
+    g.register(_Rec, keys=lambda r: list(r.fields), get=lambda r, k: r.fields[k], iterate=False)
+    leafs = [_Tree('l%d' % i) for i in range(6)]
+    t = _Tree('r', _Tree('a', _Tree('a1', leafs[0], leafs[1]), leafs[2]), _Tree('b', _Tree('b1', _Tree('b2', leafs[3]))), leafs[4])
+
+    def bfs(root):
+        out, queue = [], [root]
+        while queue:
+            n = queue.pop(0)
+            out.append(n)
+            if isinstance(n, _Tree):
+                queue.extend(n.kids)
+            elif isinstance(n, _Rec):
+                queue.extend(n.fields.values())
+            elif isinstance(n, dict):
+                queue.extend(n.values())
+            elif isinstance(n, (list, tuple)):
+                queue.extend(n)
+        return out
+    rec = _Rec(conf=_Rec(x=1, deeper=_Rec(conf=_Rec(x=2))), other={'conf': _Rec(x=3)})
+    mixed = {'top': [t, {'in': _Tree('m', _Tree('m1', {'k': _Tree('m2', leafs[5])}))}], 'rec': rec}
+    cases = [('tree at the start value', t, '**', bfs(t)), ('tree below a dict', {'root': t}, 'root.**', bfs(t)), ('trees inside plain containers', mixed, '**', bfs(mixed)),
+             ('names of all nodes', t, '**.name', [n.name for n in bfs(t)]), ('chained stars, three levels', t, '*.*.*', [[list(b.kids) for b in a.kids] for a in t.kids]),
+             ('registered keys/get at depth', rec, '**', bfs(rec)), ('registered get below the walk', rec, '**.conf.x', [1, 3, 2]),
+             ('T spelling', mixed, T.__starstar__(), bfs(mixed)), ('Path spelling', {'root': t}, Path('root', T.__starstar__(), 'name'), [n.name for n in bfs(t)])]
+    for desc, target, spec, want in cases:
+        got = call(g.glom, target, spec)
+        col.case(('registered-walk-at-depth', desc), True)
+        col.count('wildcard_evaluations')
+        def same(a, b):
+            if type(a) is list and type(b) is list:
+                return len(a) == len(b) and all(same(x, y) for x, y in zip(a, b))
+            return a is b or (type(a) in (int, str) and a == b)
+        ok = got.ok and same(got.value, want)
+        if not ok:
+            col.violation('C14/wildcard-ignores-the-registry-in-force:below-the-first-level', '%s: Glommer.glom(.., %s) gave %s ; walking every value the way the '
+                          'Glommer has registered for its type gives %s' % (desc, short(spec), short(repr(got), 300), short(repr(want), 300)), None)
+    # ... and the mutations that go through the same enumeration
+    from glom import Assign, Delete
+    t2 = _Tree('r', _Tree('a', _Tree('a1')), _Tree('b'))
+    marks = {}
+    g.register(_Tree, iterate=lambda t: iter(t.kids), assign=lambda o, k, v: marks.__setitem__((o.name, k), v), delete=lambda o, k: marks.pop((o.name, k)))
+    got = call(g.glom, t2, Assign('**.mark', 1))
+    col.count('wildcard_evaluations')
+    if not got.ok or marks != {(n, 'mark'): 1 for n in ('r', 'a', 'a1', 'b')}:
+        col.violation('C14/wildcard-ignores-the-registry-in-force:below-the-first-level', "Assign('**.mark', 1) through the Glommer: %r, marked %r" % (got if not got.ok else 'returned', sorted(marks)), None)
+    got = call(g.glom, t2, Delete('**.mark'))
+    col.count('wildcard_evaluations')
+    if not got.ok or marks:
+        col.violation('C14/wildcard-ignores-the-registry-in-force:below-the-first-level', "Delete('**.mark') through the Glommer: %r, still marked %r" % (got if not got.ok else 'returned', sorted(marks)), None)
+
+
 def wildcard_mutation_over_mixed_kinds(col):
     """Assign / Delete through a wildcard act on EVERY entry with the operation of that entry's own kind (dict item, attribute,
     integer-coerced list index), in string, Path and T spelling"""
@@ -803,6 +876,7 @@ def run(ctx):
         for i in range(ctx.n(2500, 10000)):
             mutate_case(col, rng)
         if ctx.shard == 0:
+            registered_walks_at_every_depth(col)
             wildcards_follow_the_registry_in_force(col)
             wildcard_mutation_over_mixed_kinds(col)
             after_path_cache_overflow(col, rng)
